@@ -190,7 +190,7 @@ func goKinds(n NodeCfg) []string {
 	case !n.Retry && n.Fb:
 		return []string{"plainfb"}
 	default:
-		return []string{"plain", "zerosize"}
+		return []string{"plain", "zerosize", "zerosize", "valnode"}
 	}
 }
 
@@ -673,6 +673,20 @@ func (n *structNode) Post(ctx context.Context, shared *flyt.SharedStore, p, x an
 
 type structFbNode struct{ structNode }
 
+// a node that is not a pointer: a small struct used by value, with value receivers
+type valNode struct{ c *leafCore }
+
+func (n valNode) Prep(ctx context.Context, shared *flyt.SharedStore) (any, error) {
+	return n.c.prep(ctx, shared)
+}
+func (n valNode) Exec(ctx context.Context, p any) (any, error) {
+	v, _, err := n.c.exec(ctx, n.c.s.reg.ObserveAny(p))
+	return v, err
+}
+func (n valNode) Post(ctx context.Context, shared *flyt.SharedStore, p, x any) (flyt.Action, error) {
+	return n.c.post(ctx, shared, n.c.s.reg.ObserveAny(p), n.c.s.reg.ObserveAny(x))
+}
+
 // struct nodes that embed *flyt.BaseNode but answer the retry settings themselves: the embedded settings are a decoy
 type structOvNode struct {
 	structNode
@@ -924,6 +938,8 @@ func (s *scnRun) buildLeaf(id int) flyt.Node {
 		return &plainNode{c: c}
 	case "zerosize":
 		return newZeroSize(id-1, c)
+	case "valnode":
+		return valNode{c: c}
 	case "plainfb":
 		return &plainFbNode{plainNode{c: c}}
 	case "plainretry":
